@@ -376,7 +376,9 @@ class Component(CaselessDict):
         [(name, value), ...]
         """
         vText = types_factory['text']
-        properties = [('BEGIN', vText(self.name).to_ical())]
+        # not escaped here: the value is escaped when the content line is made
+        component_name = vText(self.name).encode(DEFAULT_ENCODING)
+        properties = [('BEGIN', component_name)]
         if sorted:
             property_names = self.sorted_keys()
         else:
@@ -394,7 +396,7 @@ class Component(CaselessDict):
             # recursion is fun!
             for subcomponent in self.subcomponents:
                 properties += subcomponent.property_items(sorted=sorted)
-        properties.append(('END', vText(self.name).to_ical()))
+        properties.append(('END', component_name))
         return properties
 
     @classmethod
